@@ -49,6 +49,13 @@ def update_ff( blk ):
   NamedObject._elaborate_stack[-1]._update_ff( blk )
   return blk
 
+# Symbols of the augmented assignment operators (used in error messages)
+_augassign_symbol = {
+  ast.Add: '+',   ast.Sub: '-',    ast.Mult: '*',   ast.Div: '/',    ast.FloorDiv: '//',
+  ast.Mod: '%',   ast.Pow: '**',   ast.LShift: '<<', ast.RShift: '>>', ast.BitOr: '|',
+  ast.BitXor: '^', ast.BitAnd: '&', ast.MatMult: '@',
+}
+
 class ComponentLevel2( ComponentLevel1 ):
 
   #-----------------------------------------------------------------------
@@ -247,7 +254,7 @@ class ComponentLevel2( ComponentLevel1 ):
                 raise UpdateFFBlockWriteError( s, func, '@=', nodelist[0].lineno,
                   "Fix the '@=' assignment with '<<='")
 
-              raise UpdateFFBlockWriteError( s, func, op+'=', nodelist[0].lineno,
+              raise UpdateFFBlockWriteError( s, func, _augassign_symbol[type(op)]+'=', nodelist[0].lineno,
                 "Fix the signal assignment with '<<='")
 
 
@@ -270,7 +277,7 @@ class ComponentLevel2( ComponentLevel1 ):
               if isinstance( op, ast.LShift ):
                 raise UpdateBlockWriteError( s, func, '<<=', nodelist[0].lineno,
                   "Fix the '<<=' assignment with '@='")
-              raise UpdateBlockWriteError( s, func, op+'=', nodelist[0].lineno,
+              raise UpdateBlockWriteError( s, func, _augassign_symbol[type(op)]+'=', nodelist[0].lineno,
                 "Fix the signal assignment with '@='")
 
         # This is a function call without "s." prefix, check func list
